@@ -56,7 +56,7 @@ class C08(Prop):
         raise ValueError(opn)
 
     def _pair(self, rng, maxrows):
-        w = rng.choice([1, 2, 2, 3])
+        w = rng.choice([1, 2, 2, 3, 4, 4])
         alpha = gen.key_alphabet(rng)[:rng.choice([2, 3, 4])]
         pool = [tuple(rng.choice(alpha) for _ in range(w)) for _ in range(rng.choice([2, 3, 4]))]
 
